@@ -501,3 +501,113 @@ package gedcom
 //@   closures
 //@   no-unsync
 //@   allows @synced
+
+// ---------------------------------------------------------------------------
+// K1 (safety) contracts: functions whose every index, slice, type assertion,
+// nil dereference and explicit panic is an obligation (C03, C14).
+//
+// Every type implementing Node is a pointer type that embeds *SimpleNode (set
+// by its constructor and never reassigned), so IsNil(n) is "nil interface or
+// nil pointer" and RawSimpleNode() of a non-nil node is non-nil.
+//@ func IsNil
+//@   trusted
+//@   ensures result == (tag(node) == 0 || data(node) == 0)
+//@   assigns nothing
+//@ iface Node.RawSimpleNode()
+//@   ensures implies(tag(recv) != 0 && data(recv) != 0, result != nil)
+//@   assigns nothing
+//@ iface Node.Tag()
+//@   assigns nothing
+//@ iface Node.Value()
+//@   assigns nothing
+//@ iface Node.Pointer()
+//@   assigns nothing
+//@ iface Node.Nodes()
+//@   assigns nothing
+//
+//@ func valueToPointer
+//@   props C14
+//@   safety
+//@   assigns nothing
+//@ func parseLine
+//@   props C03 C02
+//@   safety
+//@   requires document != nil
+//@   ensures node: implies(isnil(result2), result0 != nil && data(result0) != 0)
+//@   ensures level: implies(isnil(result2), result1 >= 0)
+//@   ensures fresh: implies(isnil(result2), fresh(data(result0)))
+// The pointer is stored through node.RawSimpleNode() of the node just made; the
+// engine does not see that the embedded SimpleNode of a merged interface value
+// is fresh, so the frame lists the field (a weaker, still true, frame).
+//@   assigns alloc, H.gedcom.SimpleNode.pointer
+//@ func Decoder.trimNodeValue
+//@   props C03
+//@   safety
+//@   assigns H.gedcom.SimpleNode.value
+// needsFamily / needsDocument panic when their argument is nil: for C03 that
+// is a precondition every caller has to establish.
+//@ func needsFamily
+//@   props C03
+//@   safety
+//@   requires family != nil
+//@   assigns nothing
+//@ func needsDocument
+//@   props C03
+//@   safety
+//@   requires document != nil
+//@   assigns nothing
+
+// ---------------------------------------------------------------------------
+// C03: Decoder.Decode never crashes. Callees are opaque here (their own
+// contracts or trusted frames); the loop invariant carries what the index
+// and the interface calls need.
+//@ func NewDocument
+//@   props C03 C02
+//@   safety
+//@   ensures result != nil && fresh(result)
+//@   ensures empty: len(result.nodes) == 0 && arr(result.nodes) == 0
+//@   assigns alloc
+//@ func Decoder.consumeOptionalBOM
+//@   trusted
+//@   assigns nothing
+//@ func Decoder.readLine
+//@   trusted
+//@   assigns nothing
+//@ func Document.AddNode
+//@   props C03 C02
+//@   safety
+//@   requires doc != nil
+//@   requires nonnil: forall(i, 0, len(doc.nodes), doc.nodes[i] != nil)
+//@   ensures nonnil: forall(i, 0, len(doc.nodes), doc.nodes[i] != nil)
+//@   ensures grows: len(doc.nodes) == old(len(doc.nodes)) + ite(tag(node) == 0 || data(node) == 0, 0, 1)
+//@   ensures kept: forall(i, 0, old(len(doc.nodes)), doc.nodes[i] == old(doc.nodes[i]))
+//@   ensures last: implies(!(tag(node) == 0 || data(node) == 0), doc.nodes[len(doc.nodes)-1] == node)
+//@   ensures owned: arr(doc.nodes) == old(arr(doc.nodes)) || fresh(arr(doc.nodes))
+// Only the document's own backing array (its spare capacity) and arrays
+// allocated by the append are written.
+//@   assigns H.gedcom.Document.nodes[doc], H.gedcom.Document.families[doc], E.gedcom.Node[arr(doc.nodes)], alloc
+//@ func Document.buildPointerCache
+//@   props C03
+//@   safety
+//@   requires doc != nil
+//@   requires nonnil: forall(i, 0, len(doc.nodes), doc.nodes[i] != nil)
+//@   assigns H.gedcom.Document.pointerCache, H.gedcom.Document.families
+// AddNode appends to the receiver's children. Appending within spare capacity
+// writes a backing array; it is assumed here (as in the frame engine) that no
+// other live slice value observes that write, so for callers AddNode changes
+// the children field only.
+//@ iface Node.AddNode(n)
+//@   assigns H.gedcom.SimpleNode.children, G.gedcom.nodeCache, alloc
+//
+//@ func Decoder.Decode
+//@   props C03
+//@   safety
+//@   requires dec != nil
+//@   allowpanic "indent is too large" when !dec.AllowInvalidIndents
+//@   loop 1 invariant doc: document != nil
+//@   loop 1 invariant stack: forall(d, 0, len(indents), indents[d] != nil)
+//@   loop 1 invariant prev: implies(previousNode != nil, data(previousNode) != 0)
+//@   loop 1 invariant roots: forall(i, 0, len(document.nodes), document.nodes[i] != nil)
+//@   loop 1 invariant apart: len(indents) == 0 || arr(indents) != arr(document.nodes)
+//@   loop 1 invariant allocated: arr(indents) < alloc && arr(document.nodes) < alloc
+//@   ensures one-of: (result0 != nil) != (result1 != nil)
